@@ -210,6 +210,36 @@ func VerifC19_Processor() {
 	verifReach("end")
 }
 
+// VerifC19_ProcessorStop: Stop() with operations still queued. Workers stop cleanly: no panic
+// escapes a worker, every result delivered carries a submitted operation's value at most
+// once, all workers exit, Wait returns and the result channel is closed.
+func VerifC19_ProcessorStop() {
+	threads, buffer, nops := verifParam("threads"), verifParam("buffer"), verifParam("nops")
+	queue := make(chan Operator, nops)
+	p := NewProcessor(queue, buffer, threads)
+	for i := 0; i < nops; i++ {
+		p.Process(verifOp{v: 100 + i})
+	}
+	p.Stop()
+	p.Close()
+	seen := make([]int, nops)
+	total := 0
+	for r := range p.out {
+		total++
+		v, ok := r.Value.(int)
+		verifAssert(r.Err == nil && ok && v >= 100 && v < 100+nops, "result-carries-an-operation-value")
+		if ok && v >= 100 && v < 100+nops {
+			seen[v-100]++
+			verifAssert(seen[v-100] == 1, "no-operation-delivers-two-results")
+		}
+	}
+	p.Wait()
+	verifAssert(total <= nops, "no-more-results-than-operations")
+	verifAssert(p.Working() == 0, "all-workers-returned-their-token")
+	verifObserve("c19s", threads, buffer, nops)
+	verifReach("end")
+}
+
 // ---------------------------------------------------------------------------------------
 // Map
 
